@@ -10,6 +10,14 @@ for every identifier kind) are replayed through jsonrpc.Server.HandleReader with
 v0.8 / v0.9 / v0.10 method tables on a real Blockchain (both state backends); every JSON
 response is projected onto the abstract result and compared with the property's demand, and the
 three API versions are compared with each other on all fields they share.
+The v0.10 response flags are a request dimension of the model (parameter omitted / empty list / the
+method's flag / ill-formed): starknet_getStorageAt with INCLUDE_LAST_UPDATE_BLOCK must report the last
+block at or before the requested one whose state diff writes the slot (per-slot write history of the
+abstract chain incl. clearing writes, re-writes of the same value and zero written to a zero slot; the
+model keeps the history keys both state backends log and TLC checks the seek against the declarative
+definition; an independent harness-side oracle recomputes it from the stored state updates), the
+transaction / block methods with INCLUDE_PROOF_FACTS must show proof_facts exactly on INVOKE objects.
+v0.8 / v0.9 get the same request without the parameter and must agree on the shared fields.
 """
 import json
 import vlib
@@ -110,6 +118,14 @@ def run(ctx):
     if r["ok"] or r["violated"] != "ReadsAnswerFromChainStrict":
         raise vlib.Broken("the as-is model no longer deviates from the strict property (%s): "
                           "the FixTxIndexMissingBlock / FixZeroHashState switches are stale" % r["violated"])
+    # expected violations: the switches of the last_update_block mechanism bite (the property is not vacuous there)
+    for cfg, what in (("RpcRead_lubshortcut.cfg", "history lookup skipped for zero values (LubZeroShortcut)"),
+                      ("RpcRead_legacylub.cfg", "legacy backend not logging a zero written to a zero slot")):
+        r = ctx.tlc_check(FAMILY, "MCRpcRead.tla", cfg, timeout=600, expect_violation=True,
+                          label="RpcRead, %s (must be violated)" % what)
+        if r["ok"] or r["violated"] != "ReadsAnswerFromChainStrict":
+            raise vlib.Broken("%s: the model with '%s' no longer violates the strict property (%s)"
+                              % (cfg, what, r["violated"]))
     if thorough:
         r = ctx.tlc_check(FAMILY, "MCRpcRead.tla", "RpcRead_thorough.cfg", timeout=3000, coverage=True,
                           label="RpcRead as-is (<=4 blocks)")
@@ -171,6 +187,22 @@ def run(ctx):
         if stats.get("inflight_reads", 0) < 50 or stats.get("mutations_Restart", 0) < 20:
             raise vlib.Broken("replay is vacuous: %s in-flight reads, %s restarts" % (
                 stats.get("inflight_reads", 0), stats.get("mutations_Restart", 0)))
+        # the response-flag dimension: every region the property distinguishes was answered correctly at
+        # least a few times (v0.10, all backends)
+        need = {"lub:cleared-or-zero-written": 12, "lub:older-than-block": 12, "lub:never-written": 12,
+                "lub:at-block": 12, "lub:after-revert": 12, "lub:by-hash": 6, "lub:by-latest": 6,
+                "lub:by-l1_accepted": 6, "lub_oracle_checks": 60, "flags:bad-refused": 30, "flags:empty": 30,
+                "pf:tx:facts": 6, "pf:tx:empty": 6, "pf:tx:absent": 6, "pf:block:facts": 6, "pf:block:empty": 6}
+        short = {k: stats.get(k, 0) for k, n in need.items() if stats.get(k, 0) < n}
+        if short:
+            raise vlib.Broken("replay is vacuous for the v0.10 response flags: %s (needed %s)" % (
+                short, {k: need[k] for k in short}))
+    ctx.coverage["response_flags"] = {k: v for k, v in sorted(res.get("stats", {}).items())
+                                      if k.startswith(("lub", "pf:", "flags:", "flagged_"))}
+    if res.get("stats", {}).get("lub_oracle_disagrees_with_spec", 0):
+        raise vlib.Broken("the harness-side oracle of last_update_block (stored state updates) disagrees with "
+                          "RpcRead!DLubIn in %d requests: specification and concretisation are out of step"
+                          % res["stats"]["lub_oracle_disagrees_with_spec"])
     ctx.assumptions += [
         "FFI stubs stand in for the Rust VM/compiler (read methods never call them; a call aborts loudly)",
         "blocks are built by chainkit through the real Simulate/SanityCheckNewHeight/Store; the hash and "
@@ -181,15 +213,25 @@ def run(ctx):
         "race, hangs and process crashes are judged",
         "v0.8 has no l1_accepted / pre_confirmed tags: InvalidParams there is a specification difference",
         "finality is decided by the recorded L1 head NUMBER only (as the property states); the L1 head's hash is not compared",
+        "last_update_block = number of the last block <= the requested one whose state diff has an entry for the slot "
+        "(whatever value it writes), 0 if none - what core/state logs and getStateUpdate shows; block 0 and 'never' "
+        "are indistinguishable by design of the API",
+        "response_flags exist on v0.10 only: v0.8 / v0.9 are asked the same question without the parameter; "
+        "proof_facts: [] on INVOKE v0/v1 objects (the code does this for every INVOKE) is taken as it is",
     ]
     return ctx.finish(
         "model_checking",
         "exhaustive TLC on RpcRead.tla (chains <= 3 [thorough: 4] blocks, <= 2 reverts, 2 block variants per height, "
         "L1 head none/below/at/above the height/2^64-1; every read method x every identifier kind incl. absent and "
-        "2^64-1 numbers, reverted, unknown and zero hashes, index 2^62; Restart; composite in-flight steps) for the "
-        "as-is and the repaired model + TLC-simulated behaviours of 48 steps replayed request by request on "
+        "2^64-1 numbers, reverted, unknown and zero hashes, index 2^62; v0.10 response_flags omitted / empty / the method's "
+        "flag / ill-formed on the five methods that take them, with a per-slot write history (set, overwritten, cleared, "
+        "re-written with the same value, zero onto zero) behind last_update_block and proof facts on some INVOKE v3; "
+        "Restart; composite in-flight steps) for the as-is and the repaired model, two expected-violation configurations "
+        "for the last_update_block mechanism + TLC-simulated behaviours of 48 steps replayed request by request on "
         "v0.8/v0.9/v0.10 x {legacy, new state on memory, legacy on Pebble} behind a poisoning store (lent buffers are "
         "scribbled), with restarts, retained-response checks and gated in-flight requests (every store read of every "
         "version paused while Store/Revert/SetL1Head run; judged: sequential re-read afterwards, no hang; torn answers "
         "are observations); non-trivial = every behaviour interleaves Store/Revert/SetL1Head with reads, >= 100 reads "
-        "answered with data, every method and error kind seen, dropped tx hashes read with their slot re-occupied")
+        "answered with data, every method and error kind seen, dropped tx hashes read with their slot re-occupied, "
+        "last_update_block asked for cleared / older / never-written slots by number, hash, latest and l1_accepted and "
+        "after reverts, proof facts present / empty / absent seen")
